@@ -58,6 +58,9 @@ def ref_path(cfg, wt, account, change, index, cosigner_id=0):
         st = 2 if wt == 'segwit' else 1
         return ([48 + H, coin + H, account + H, st + H, change, index],
                 "m/48'/%d'/%d'/%d'/%d/%d" % (coin, account, st, change, index))
+    if cfg.get('key_path') == 'core':
+        # the bundled alternative key structure m/account'/change'/address_index' (every level hardened)
+        return [account + H, change + H, index + H], "m/%d'/%d'/%d'" % (account, change, index)
     p = PURPOSE[wt]
     return [p + H, coin + H, account + H, change, index], "m/%d'/%d'/%d'/%d/%d" % (p, coin, account, change, index)
 
@@ -103,6 +106,9 @@ def _create(cfg):
     elif cfg['origin'] == 'seed':
         if cfg.get('account'):
             kw['account_id'] = cfg['account']
+        if cfg.get('key_path') == 'core':
+            from bitcoinlib.config.config import KEY_PATH_BITCOINCORE
+            kw['key_path'] = KEY_PATH_BITCOINCORE
         w = Wallet.create('w', keys=HDKey.from_seed(wh.seed_bytes(seed).hex(), network=net, witness_type=wt), **kw)
     elif cfg['origin'] == 'mnemonic':
         w = Wallet.create('w', keys=' '.join(bip39.to_words(_entropy(seed))), **kw)
@@ -316,6 +322,11 @@ def sub_hist(case):
                 cos_id = cos if cos is not None else 0
             else:
                 cos_id = 0
+            if not (isinstance(idx, int) and 0 <= idx < H and isinstance(chg, int) and 0 <= chg < H and
+                    isinstance(acc, int) and 0 <= acc < H):
+                devs.append({'sig': 'row_index_fields_out_of_range|%s' % _cls(cfg, wt_),
+                             'detail': {'row': str(key), 'path': kpath}})
+                continue
             try:
                 pstr, rks, raddr_ = ref_key_address(cfg, wt_, acc, chg, idx, cos_id)
             except KeyError:
@@ -408,6 +419,10 @@ def run(ctx):
     cfgs.append({'origin': 'seed', 'network': 'bitcoinlib_test', 'wt': 'segwit', 'seed': seed, 'events': ev_acc,
                  'account': 5})
     add('mnemonic', 'bitcoin', 'segwit', EV_SMALL)
+    # a custom key structure whose address level is hardened (bundled KEY_PATH_BITCOINCORE)
+    cfgs.append({'origin': 'seed', 'network': 'bitcoinlib_test', 'wt': 'segwit', 'seed': seed, 'key_path': 'core',
+                 'events': [['new_key'], ['new_key_change'], ['get_key'], ['get_keys2'], ['new_keys3'], ['mark_used'], ['reopen'],
+                            ['new_account']]})
     add('xprv', 'bitcoin', 'legacy', EV_SMALL)
     add('watch', 'bitcoin', 'segwit', EV_WATCH)
     # a private key below the master: requests that need the master (another witness type, another account) must
